@@ -65,6 +65,9 @@ def extract_case(rng, sp):
     for k in ("p_from", "p_to", "mf_from", "mf_to", "lambda", "reynolds", "dp_frict_loss", "v_mps", "vf", "temp_from",
               "temp_to", "t_outlet", "v_gas_from", "v_gas_to", "v_gas_mean", "normfactor_from", "normfactor_to"):
         br[k] = np.array([12.0 * rng.randint(-500, 500) for _ in range(nb)])
+    # flow direction flags: random per section (the code reads the flag at the last section of each element)
+    bpit[:, ib.FROM_NODE_T_SWITCHED] = [float(rng.random() < 0.4) for _ in range(nb)]
+    switched = bpit[f:t, ib.FROM_NODE_T_SWITCHED].astype(bool).copy()
     for c in net.res_pipe.columns:
         net.res_pipe[c] = float(SENTINEL)
     rex.extract_branch_results_with_internals(
@@ -88,14 +91,14 @@ def extract_case(rng, sp):
         res = {c: cm.as_int_list(net.res_pipe[c].values, c) for c in (cfrom, cto, cmean, clast) if c}
         z = [0] * len(idx_pit)
         txt = ("{| ec_numba := %s; ec_labels := %s; ec_secs := %s; ec_idx_pit := %s; ec_conn := %s; ec_from_ext := %s; "
-               "ec_to_ext := %s; ec_v_from := %s; ec_v_to := %s; ec_v_mean := %s; ec_v_last := %s; ec_old := %s; "
+               "ec_to_ext := %s; ec_switched := %s; ec_v_from := %s; ec_v_to := %s; ec_v_mean := %s; ec_v_last := %s; ec_old := %s; "
                "ec_res_from := %s; ec_res_to := %s; ec_res_mean := %s; ec_res_last := %s |}"
-               % (cbool(use_numba), cm.zl(labels), natl(secs), cm.zl(idx_pit), cm.bl(conn), cm.bl(from_ext), cm.bl(to_ext),
+               % (cbool(use_numba), cm.zl(labels), natl(secs), cm.zl(idx_pit), cm.bl(conn), cm.bl(from_ext), cm.bl(to_ext), cm.bl(switched),
                   cm.zl(br[vfrom][f:t]), cm.zl(br[vto][f:t]),
                   cm.zl(br[vmean][f:t]) if vmean else cm.zl(z), cm.zl(br[vlast][f:t]) if vlast else cm.zl(z),
                   cm.zl(old), cm.zl(res[cfrom]), cm.zl(res[cto]),
                   cm.zl(res[cmean]) if cmean else cm.zl(model_mean_of_zeros(labels, secs, conn)),
-                  cm.zl(res[clast]) if clast else cm.zl(oracle_rows(secs, conn, z, old, last=True))))
+                  cm.zl(res[clast]) if clast else cm.zl(oracle_outlet(secs, conn, switched, z, old))))
         # the property as a python oracle, used to classify a disagreement
         bad = None
         exp_from = oracle_rows(secs, conn, [int(x) for x in br[vfrom][f:t]], old, last=False)
@@ -104,11 +107,12 @@ def extract_case(rng, sp):
             bad = (cfrom, res[cfrom], exp_from)
         elif res[cto] != exp_to:
             bad = (cto, res[cto], exp_to)
-        elif clast and res[clast] != oracle_rows(secs, conn, [int(x) for x in br[vlast][f:t]], old, last=True):
-            bad = (clast, res[clast], oracle_rows(secs, conn, [int(x) for x in br[vlast][f:t]], old, last=True))
+        elif clast and res[clast] != oracle_outlet(secs, conn, switched, [int(x) for x in br[vlast][f:t]], old):
+            bad = (clast, res[clast], oracle_outlet(secs, conn, switched, [int(x) for x in br[vlast][f:t]], old))
         elif cmean and res[cmean] != oracle_mean(secs, conn, [int(x) for x in br[vmean][f:t]], old):
             bad = (cmean, res[cmean], oracle_mean(secs, conn, [int(x) for x in br[vmean][f:t]], old))
-        out.append((txt, bad, {"labels": labels, "sections": secs, "connected": [bool(x) for x in conn], "mode": mode}))
+        out.append((txt, bad, {"labels": labels, "sections": secs, "connected": [bool(x) for x in conn], "mode": mode,
+                                "switched": [bool(x) for x in switched]}))
     return out
 
 
@@ -121,6 +125,16 @@ def oracle_rows(secs, conn, vals, old, last):
     for r, s in enumerate(secs):
         q = p + s - 1 if last else p
         out.append(vals[q] if conn[q] else old[r])
+        p += s
+    return out
+
+
+def oracle_outlet(secs, conn, switched, vals, old):
+    """outlet section of a row = last section, first section with flow against the declared direction"""
+    out, p = [], 0
+    for r, s in enumerate(secs):
+        last = p + s - 1
+        out.append(vals[p if switched[last] else last] if conn[last] else old[r])
         p += s
     return out
 
